@@ -2,6 +2,7 @@
 from .. import mir, terms, loops
 from ..terms import V, match, fmt
 from . import c04, dec
+from .. import inline
 
 N = dec.N
 P = lambda i: ("param", i)
@@ -70,12 +71,15 @@ def r2_blocks(rep, crate, cfg):
             s, args = ev
             a = args[1]
             return ("emit", tuple(a[2]) if a[0] == "agg" else (a,))
-        ls = loops.LoopSummary(f, sink)
-        sig = loops.signature(ls, roles, norm)
-        # `if zl > 0 { .. }` wrappers only add an ITE on the initial value of the running offset: normalise it away
-        rules = [(("ite", ("op", "Lt", ("const", 0), ("role", V("z"))), V("a"), ("const", 0)), lambda e: e["a"])]
-        sig = loops.rewrite_signature(sig, rules)
-        d = loops.diff_signatures(sig_ref, sig)
+        for fv in inline.variants(crate, f):
+            ls = loops.LoopSummary(fv, sink)
+            sig = loops.signature(ls, roles, norm)
+            # `if zl > 0 { .. }` wrappers only add an ITE on the initial value of the running offset: normalise it away
+            rules = [(("ite", ("op", "Lt", ("const", 0), ("role", V("z"))), V("a"), ("const", 0)), lambda e: e["a"])]
+            sig = loops.rewrite_signature(sig, rules)
+            d = loops.diff_signatures(sig_ref, sig)
+            if not d:
+                break
         rep.check(not d, R, f.key, "block-offsets", f.loc(),
                   "block i covers [pos, pos + K_i*T): the first ZL blocks use KL, the following ZS blocks use KS, contiguous from 0 "
                   "(roles of Partition[Kt, Z] as in the RFC)", {"differences": d[:4]}, cfg)
@@ -153,8 +157,11 @@ def r2_subblocks(rep, crate, cfg):
         part = ("call", "base::partition", (N(("op", "Div", T, AL)), NN))
         roles = part_roles(part, ["TL", "TS", "NL", "NS"])
         roles.update({AL: "Al", K: "K", P(4): "i"})
-        sig = loops.signature(loops.LoopSummary(g, sink_d), roles, norm_d)
-        d = loops.diff_signatures(sig_ref, sig)
+        for gv in inline.variants(crate, g):
+            sig = loops.signature(loops.LoopSummary(gv, sink_d), roles, norm_d)
+            d = loops.diff_signatures(sig_ref, sig)
+            if not d:
+                break
         rep.check(not d, R, g.key, "deinterleave", g.loc(),
                   "sub-symbol s of symbol i is written at (sum over s' < s of bytes_s' * K) + bytes_s * i, read from the running offset in "
                   "the symbol: the inverse of the encoder's interleaving", {"differences": d[:4]}, cfg)
